@@ -129,8 +129,8 @@ class MosFile:
 
     def __repr__(self):
         if self.completed:
-            return f"<{self.__class__.__name__} {self.message_id} completed>"
-        return f"<{self.__class__.__name__} {self.message_id}>"
+            return f"<{self.__class__.__name__} {self._message_label} completed>"
+        return f"<{self.__class__.__name__} {self._message_label}>"
 
     def __str__(self):
         """
@@ -174,6 +174,18 @@ class MosFile:
         The MOS file's message ID
         """
         return int(self.xml.find('messageID').text)
+
+    @property
+    def _message_label(self) -> str:
+        """
+        The message ID as used in error and warning texts. Unlike
+        :attr:`message_id` this never raises, so reporting a problem cannot
+        itself fail half way through a merge.
+        """
+        try:
+            return str(self.message_id)
+        except (AttributeError, TypeError, ValueError):
+            return '(no message ID)'
 
     @property
     def ro_id(self) -> str:
@@ -387,7 +399,7 @@ class StorySend(MosFile):
         try:
             story, story_index = ro._find_story(self.story.id)
         except ValueError:
-            msg = f"{self.__class__.__name__} error in {self.message_id} - story not found"
+            msg = f"{self.__class__.__name__} error in {self._message_label} - story not found"
             logger.warning(msg)
             warnings.warn(msg, StoryNotFoundWarning)
             return ro
@@ -571,7 +583,7 @@ class StoryDelete(MosFile):
             if found_node is not None:
                 remove_node(parent=ro.base_tag, node=found_node)
             else:
-                msg = f"{self.__class__.__name__} error in {self.message_id} - story not found"
+                msg = f"{self.__class__.__name__} error in {self._message_label} - story not found"
                 logger.warning(msg)
                 warnings.warn(msg, StoryNotFoundWarning)
         return ro
@@ -632,12 +644,12 @@ class ItemDelete(MosFile):
         story, story_index = find_child_by_id(parent=ro.base_tag, child_tag='story', id=self.story.id)
         if story is None:
             raise MosMergeError(
-                f"{self.__class__.__name__} error in {self.message_id} - story not found"
+                f"{self.__class__.__name__} error in {self._message_label} - story not found"
             )
         for item in self.items:
             found_node, found_index = find_child_by_id(parent=story, child_tag='item', id=item.id)
             if found_node is None:
-                msg = f"{self.__class__.__name__} error in {self.message_id} - item not found"
+                msg = f"{self.__class__.__name__} error in {self._message_label} - item not found"
                 logger.warning(msg)
                 warnings.warn(msg, ItemNotFoundWarning)
             else:
@@ -702,12 +714,12 @@ class StoryInsert(MosFile):
         story, story_index = find_child_by_id(parent=ro.base_tag, child_tag='story', id=self.target_story.id)
         if story_index is None:
             raise MosMergeError(
-                f"{self.__class__.__name__} error in {self.message_id} - target story not found"
+                f"{self.__class__.__name__} error in {self._message_label} - target story not found"
             )
         ro_story_ids = {story.id for story in ro.stories}
         for new_story in self.source_stories:
             if new_story.id in ro_story_ids:
-                msg = f"{self.__class__.__name__} error in {self.message_id} - story already found in running order"
+                msg = f"{self.__class__.__name__} error in {self._message_label} - story already found in running order"
                 logger.warning(msg)
                 warnings.warn(msg, DuplicateStoryWarning)
                 continue
@@ -783,7 +795,7 @@ class ItemInsert(MosFile):
         story, story_index = find_child_by_id(parent=ro.base_tag, child_tag='story', id=self.story.id)
         if story is None:
             raise MosMergeError(
-                f"{self.__class__.__name__} error in {self.message_id} - target story not found"
+                f"{self.__class__.__name__} error in {self._message_label} - target story not found"
             )
         if self.item.id is None:
             # move to the end
@@ -792,7 +804,7 @@ class ItemInsert(MosFile):
             target_item, item_index = find_child_by_id(parent=story, child_tag='item', id=self.item.id)
             if target_item is None:
                 raise MosMergeError(
-                    f"{self.__class__.__name__} error in {self.message_id} - target item not found"
+                    f"{self.__class__.__name__} error in {self._message_label} - target item not found"
                 )
         for i, item in enumerate(self.items, start=item_index):
             insert_node(parent=story, node=copy.deepcopy(item.xml), index=i)
@@ -859,23 +871,23 @@ class StoryMove(MosFile):
         """
         if self.source_story is None:
             raise MosMergeError(
-                f"{self.__class__.__name__} error in {self.message_id} - no stories given"
+                f"{self.__class__.__name__} error in {self._message_label} - no stories given"
             )
         target_story = None
         if self.target_story is not None:
             target_story, target_story_index = find_child_by_id(parent=ro.base_tag, child_tag='story', id=self.target_story.id)
             if target_story is None:
                 raise MosMergeError(
-                    f"{self.__class__.__name__} error in {self.message_id} - target story not found"
+                    f"{self.__class__.__name__} error in {self._message_label} - target story not found"
                 )
         source_story, source_index = find_child_by_id(parent=ro.base_tag, child_tag='story', id=self.source_story.id)
         if source_story is None:
             raise MosMergeError(
-                f"{self.__class__.__name__} error in {self.message_id} - source story not found"
+                f"{self.__class__.__name__} error in {self._message_label} - source story not found"
             )
         if source_story is target_story:
             raise MosMergeError(
-                f"{self.__class__.__name__} error in {self.message_id} - cannot move a story above itself"
+                f"{self.__class__.__name__} error in {self._message_label} - cannot move a story above itself"
             )
         remove_node(parent=ro.base_tag, node=source_story)
         # the target position is only known once the source has been removed
@@ -962,12 +974,12 @@ class ItemMoveMultiple(MosFile):
         """
         if self.story.id is None:
             raise MosMergeError(
-                f"{self.__class__.__name__} error in {self.message_id} - no story given"
+                f"{self.__class__.__name__} error in {self._message_label} - no story given"
             )
         story, story_index = find_child_by_id(parent=ro.base_tag, child_tag='story', id=self.story.id)
         if story is None:
             raise MosMergeError(
-                f"{self.__class__.__name__} error in {self.message_id} - story not found"
+                f"{self.__class__.__name__} error in {self._message_label} - story not found"
             )
 
         target_item = None
@@ -975,7 +987,7 @@ class ItemMoveMultiple(MosFile):
             target_item, target_item_index = find_child_by_id(parent=story, child_tag='item', id=self.item.id)
             if target_item is None:
                 raise MosMergeError(
-                    f"{self.__class__.__name__} error in {self.message_id} - target item not found"
+                    f"{self.__class__.__name__} error in {self._message_label} - target item not found"
                 )
 
         # find every source item before changing anything
@@ -984,11 +996,11 @@ class ItemMoveMultiple(MosFile):
             source_item, source_item_index = find_child_by_id(parent=story, child_tag='item', id=item.id)
             if source_item_index is None:
                 raise MosMergeError(
-                    f"{self.__class__.__name__} error in {self.message_id} - source item not found"
+                    f"{self.__class__.__name__} error in {self._message_label} - source item not found"
                 )
             if source_item is target_item or any(source_item is i for i in source_items):
                 raise MosMergeError(
-                    f"{self.__class__.__name__} error in {self.message_id} - duplicate item ID"
+                    f"{self.__class__.__name__} error in {self._message_label} - duplicate item ID"
                 )
             source_items.append(source_item)
 
@@ -1062,11 +1074,11 @@ class StoryReplace(MosFile):
         story, story_index = find_child_by_id(parent=ro.base_tag, child_tag='story', id=self.story.id)
         if story is None:
             raise MosMergeError(
-                f"{self.__class__.__name__} error in {self.message_id} - target story not found"
+                f"{self.__class__.__name__} error in {self._message_label} - target story not found"
             )
         if len(self.stories) == 0:
             raise MosMergeError(
-                f"{self.__class__.__name__} error in {self.message_id} - no stories to insert"
+                f"{self.__class__.__name__} error in {self._message_label} - no stories to insert"
             )
         remove_node(parent=ro.base_tag, node=story)
         for i, new_story in enumerate(self.stories, start=story_index):
@@ -1138,13 +1150,13 @@ class ItemReplace(MosFile):
         story, story_index = find_child_by_id(parent=ro.base_tag, child_tag='story', id=self.story.id)
         if story is None:
             raise MosMergeError(
-                f"{self.__class__.__name__} error in {self.message_id} - story not found"
+                f"{self.__class__.__name__} error in {self._message_label} - story not found"
             )
 
         item, item_index = find_child_by_id(parent=story, child_tag='item', id=self.item.id)
         if item is None:
             raise MosMergeError(
-                f"{self.__class__.__name__} error in {self.message_id} - item not found"
+                f"{self.__class__.__name__} error in {self._message_label} - item not found"
             )
 
         remove_node(parent=story, node=item)
@@ -1386,7 +1398,7 @@ class EAStoryReplace(ElementAction):
         story, story_index = find_child_by_id(parent=ro.base_tag, child_tag='story', id=self.story.id)
         if story is None:
             raise MosMergeError(
-                f"{self.__class__.__name__} error in {self.message_id} - story not found"
+                f"{self.__class__.__name__} error in {self._message_label} - story not found"
             )
         remove_node(parent=ro.base_tag, node=story)
         for i, new_story in enumerate(self.stories, start=story_index):
@@ -1452,12 +1464,12 @@ class EAItemReplace(ElementAction):
         story, story_index = find_child_by_id(parent=ro.base_tag, child_tag='story', id=self.story.id)
         if story is None:
             raise MosMergeError(
-                f"{self.__class__.__name__} error in {self.message_id} - story not found"
+                f"{self.__class__.__name__} error in {self._message_label} - story not found"
             )
         item, item_index = find_child_by_id(parent=story, child_tag='item', id=self.item.id)
         if item is None:
             raise MosMergeError(
-                f"{self.__class__.__name__} error in {self.message_id} - item not found"
+                f"{self.__class__.__name__} error in {self._message_label} - item not found"
             )
         remove_node(parent=story, node=item)
         for i, new_item in enumerate(self.items, start=item_index):
@@ -1512,7 +1524,7 @@ class EAStoryDelete(ElementAction):
         for source_story in self.stories:
             story, story_index = find_child_by_id(parent=ro.base_tag, child_tag='story', id=source_story.id)
             if story is None:
-                msg = f"{self.__class__.__name__} error in {self.message_id} - story not found"
+                msg = f"{self.__class__.__name__} error in {self._message_label} - story not found"
                 logger.warning(msg)
                 warnings.warn(msg, StoryNotFoundWarning)
             else:
@@ -1572,7 +1584,7 @@ class EAItemDelete(ElementAction):
         """
         story, story_index = find_child_by_id(parent=ro.base_tag, child_tag='story', id=self.story.id)
         if story is None:
-            msg = f"{self.__class__.__name__} error in {self.message_id} - story not found"
+            msg = f"{self.__class__.__name__} error in {self._message_label} - story not found"
             logger.warning(msg)
             warnings.warn(msg, StoryNotFoundWarning)
             return ro
@@ -1580,7 +1592,7 @@ class EAItemDelete(ElementAction):
         for source_item in self.items:
             item, item_index = find_child_by_id(parent=story, child_tag='item', id=source_item.id)
             if item is None:
-                msg = f"{self.__class__.__name__} error in {self.message_id} - item not found"
+                msg = f"{self.__class__.__name__} error in {self._message_label} - item not found"
                 logger.warning(msg)
                 warnings.warn(msg, ItemNotFoundWarning)
             else:
@@ -1644,12 +1656,12 @@ class EAStoryInsert(ElementAction):
             story, story_index = find_child_by_id(parent=ro.base_tag, child_tag='story', id=self.story.id)
             if story is None:
                 raise MosMergeError(
-                    f"{self.__class__.__name__} error in {self.message_id} - target story not found"
+                    f"{self.__class__.__name__} error in {self._message_label} - target story not found"
                 )
         ro_story_ids = {story.id for story in ro.stories}
         for new_story in self.stories:
             if new_story.id in ro_story_ids:
-                msg = f"{self.__class__.__name__} error in {self.message_id} - story already found in running order"
+                msg = f"{self.__class__.__name__} error in {self._message_label} - story already found in running order"
                 logger.warning(msg)
                 warnings.warn(msg, DuplicateStoryWarning)
             else:
@@ -1718,7 +1730,7 @@ class EAItemInsert(ElementAction):
         story, story_index = find_child_by_id(parent=ro.base_tag, child_tag='story', id=self.story.id)
         if story is None:
             raise MosMergeError(
-                f"{self.__class__.__name__} error in {self.message_id} - story not found"
+                f"{self.__class__.__name__} error in {self._message_label} - story not found"
             )
         if self.item.id is None:
             # move to bottom
@@ -1727,7 +1739,7 @@ class EAItemInsert(ElementAction):
             item, item_index = find_child_by_id(parent=story, child_tag='item', id=self.item.id)
             if item is None:
                 raise MosMergeError(
-                    f"{self.__class__.__name__} error in {self.message_id} - item not found"
+                    f"{self.__class__.__name__} error in {self._message_label} - item not found"
                 )
         for i, new_item in enumerate(self.items, start=item_index):
             insert_node(parent=story, node=copy.deepcopy(new_item.xml), index=i)
@@ -1784,16 +1796,16 @@ class EAStorySwap(ElementAction):
         story1, story1_index = find_child_by_id(parent=ro.base_tag, child_tag='story', id=source_story_1.id)
         if story1 is None:
             raise MosMergeError(
-                f"{self.__class__.__name__} error in {self.message_id} - story 1 not found"
+                f"{self.__class__.__name__} error in {self._message_label} - story 1 not found"
             )
         story2, story2_index = find_child_by_id(parent=ro.base_tag, child_tag='story', id=source_story_2.id)
         if story2 is None:
             raise MosMergeError(
-                f"{self.__class__.__name__} error in {self.message_id} - story 2 not found"
+                f"{self.__class__.__name__} error in {self._message_label} - story 2 not found"
             )
         if story1 is story2:
             raise MosMergeError(
-                f"{self.__class__.__name__} error in {self.message_id} - cannot swap a story with itself"
+                f"{self.__class__.__name__} error in {self._message_label} - cannot swap a story with itself"
             )
         if story1_index > story2_index:
             story1, story1_index, story2, story2_index = story2, story2_index, story1, story1_index
@@ -1857,22 +1869,22 @@ class EAItemSwap(ElementAction):
         story, story_index = find_child_by_id(parent=ro.base_tag, child_tag='story', id=self.story.id)
         if story is None:
             raise MosMergeError(
-                f"{self.__class__.__name__} error in {self.message_id} - story not found"
+                f"{self.__class__.__name__} error in {self._message_label} - story not found"
             )
         source_item_1, source_item_2 = self.items
         item1, item1_index = find_child_by_id(parent=story, child_tag='item', id=source_item_1.id)
         if item1 is None:
             raise MosMergeError(
-                f"{self.__class__.__name__} error in {self.message_id} - item 1 not found"
+                f"{self.__class__.__name__} error in {self._message_label} - item 1 not found"
             )
         item2, item2_index = find_child_by_id(parent=story, child_tag='item', id=source_item_2.id)
         if item2 is None:
             raise MosMergeError(
-                f"{self.__class__.__name__} error in {self.message_id} - item 2 not found"
+                f"{self.__class__.__name__} error in {self._message_label} - item 2 not found"
             )
         if item1 is item2:
             raise MosMergeError(
-                f"{self.__class__.__name__} error in {self.message_id} - cannot swap an item with itself"
+                f"{self.__class__.__name__} error in {self._message_label} - cannot swap an item with itself"
             )
         if item1_index > item2_index:
             item1, item1_index, item2, item2_index = item2, item2_index, item1, item1_index
@@ -1940,7 +1952,7 @@ class EAStoryMove(ElementAction):
             target_story, target_story_index = find_child_by_id(parent=ro.base_tag, child_tag='story', id=self.story.id)
             if target_story is None:
                 raise MosMergeError(
-                    f"{self.__class__.__name__} error in {self.message_id} - target story not found"
+                    f"{self.__class__.__name__} error in {self._message_label} - target story not found"
                 )
 
         # find every source story before changing anything
@@ -1949,11 +1961,11 @@ class EAStoryMove(ElementAction):
             story, source_index = find_child_by_id(parent=ro.base_tag, child_tag='story', id=source_story.id)
             if story is None:
                 raise MosMergeError(
-                    f"{self.__class__.__name__} error in {self.message_id} - source story not found"
+                    f"{self.__class__.__name__} error in {self._message_label} - source story not found"
                 )
             if story is target_story or any(story is s for s in stories):
                 raise MosMergeError(
-                    f"{self.__class__.__name__} error in {self.message_id} - duplicate story ID"
+                    f"{self.__class__.__name__} error in {self._message_label} - duplicate story ID"
                 )
             stories.append(story)
 
@@ -2028,14 +2040,14 @@ class EAItemMove(ElementAction):
         story, story_index = find_child_by_id(parent=ro.base_tag, child_tag='story', id=self.story.id)
         if story is None:
             raise MosMergeError(
-                f"{self.__class__.__name__} error in {self.message_id} - story not found"
+                f"{self.__class__.__name__} error in {self._message_label} - story not found"
             )
         target_item = None
         if self.item.id is not None:
             target_item, target_item_index = find_child_by_id(parent=story, child_tag='item', id=self.item.id)
             if target_item is None:
                 raise MosMergeError(
-                    f"{self.__class__.__name__} error in {self.message_id} - target item not found"
+                    f"{self.__class__.__name__} error in {self._message_label} - target item not found"
                 )
 
         # find every source item before changing anything
@@ -2044,11 +2056,11 @@ class EAItemMove(ElementAction):
             item, item_index = find_child_by_id(parent=story, child_tag='item', id=source_item.id)
             if item is None:
                 raise MosMergeError(
-                    f"{self.__class__.__name__} error in {self.message_id} - source item not found"
+                    f"{self.__class__.__name__} error in {self._message_label} - source item not found"
                 )
             if item is target_item or any(item is i for i in items):
                 raise MosMergeError(
-                    f"{self.__class__.__name__} error in {self.message_id} - duplicate item ID"
+                    f"{self.__class__.__name__} error in {self._message_label} - duplicate item ID"
                 )
             items.append(item)
 
